@@ -87,7 +87,7 @@ def holey_grid(draw, big=False):
     return V, F, tags
 
 
-SEQ_OPS = ["all", "all", "all", "boundary", "boundary", "cycle", "cycle", "cycle_default", "cycle_bad", "is_border", "detector"]
+SEQ_OPS = ["all", "all", "all", "boundary", "boundary", "cycle", "cycle", "cycle_default", "cycle_bad", "is_border", "detector", "other_mesh"]
 
 
 @st.composite
@@ -122,7 +122,66 @@ def border_case(draw, big=False):
     return {"V": V, "F": F, "tags": tags, "s0": draw(st.integers(0, 10 ** 4)), "probe": draw(st.integers(0, 10 ** 4)), "ops": ops}
 
 
+HUGE_SIZES = [1030, 2100, 4200, 8300, 10050, 10500, 12000, 16500, 33000, 66000]   # around / above 2^10..2^16 and 10^3, 10^4
+
+
+@st.composite
+def border_huge_case(draw):
+    """size regime: border loops with 10^3 .. 6.6*10^4 vertices (long strips, ladders with and without chords, an open fan around one
+    vertex of huge degree, one big polygon, a thin annulus with two long loops)"""
+    fam = draw(st.sampled_from(["strip", "ladder", "ladder_tri", "ladder2", "fan_open", "polygon", "annulus"]))
+    n = draw(st.sampled_from(HUGE_SIZES))
+    if fam == "polygon":
+        n = min(n, 12000)          # the reference ring computation is quadratic in the face size
+    if fam == "strip":
+        V, F = G.strip(n)
+    elif fam in ("ladder", "ladder_tri"):
+        V, F = G.grid(n // 2, 1)
+        if fam == "ladder_tri":
+            F = [t for k, f in enumerate(F) for t in (([f[0], f[1], f[2]], [f[0], f[2], f[3]]) if k % 3 else ([f[1], f[2], f[3]], [f[1], f[3], f[0]]))]
+    elif fam == "ladder2":
+        V, F = G.grid(n // 2, 2)
+    elif fam == "fan_open":
+        V, F = G.fan(n, False)
+    elif fam == "polygon":
+        V, F = G.single_polygon(n)
+    else:
+        V, F = G.grid(n, 1, wrap_u=True)
+    tags = ["huge=" + fam]
+    if draw(st.booleans()):
+        V, F, _ = G.relabel(V, F, draw(st.integers(0, 10000)), reverse=draw(st.booleans()))
+        tags.append("relabelled")
+    V = [[round(float(x), 6) for x in v] for v in V]
+    F = [list(map(int, f)) for f in F]
+    ops = draw(st.lists(st.tuples(st.sampled_from(["all", "boundary", "cycle", "cycle_default", "detector"]), st.integers(0, 10 ** 6)).map(list),
+                        min_size=2, max_size=4))
+    return {"V": V, "F": F, "tags": tags, "starts": [draw(st.integers(0, 10 ** 6)) for _ in range(3)], "ops": ops}
+
+
 # ============================================================================================ border: oracle
+
+class S:
+    """lazy, abbreviated repr for messages (border loops may have tens of thousands of vertices)"""
+
+    def __init__(self, x, n=40):
+        self.x, self.n = x, n
+
+    def __format__(self, spec):
+        x = self.x
+        try:
+            if isinstance(x, (set, frozenset)):
+                x = sorted(x)
+            if isinstance(x, dict):
+                if len(x) > self.n:
+                    return repr(dict(list(x.items())[:self.n]))[:-1] + f", ... {len(x)} entries}}"
+                return repr(x)
+            if isinstance(x, (list, tuple)) and len(x) > self.n:
+                return repr(list(x[:self.n]))[:-1] + f", ... {len(x)} items]"
+        except Exception:
+            pass
+        r = repr(x)
+        return r if len(r) < 4000 else r[:4000] + "..."
+
 
 def _as_int_list(x):
     try:
@@ -133,10 +192,10 @@ def _as_int_list(x):
 
 def check_cycle(ctx, r, s, loops, loop_of, bedges, eid, what):
     """r = value returned by extract_border_cycle for start s (s None: default start)"""
-    if not ctx.check(isinstance(r, (tuple, list)) and len(r) == 2, "cycle:shape", f"{what}: returned {r!r}, expected (vertices, edges)"):
+    if not ctx.check(isinstance(r, (tuple, list)) and len(r) == 2, "cycle:shape", f"{what}: returned {S(r)}, expected (vertices, edges)"):
         return False
     vb, eb = _as_int_list(r[0]), _as_int_list(r[1])
-    if not ctx.check(vb is not None and eb is not None and len(vb) > 0, "cycle:shape", f"{what}: returned {r!r}"):
+    if not ctx.check(vb is not None and eb is not None and len(vb) > 0, "cycle:shape", f"{what}: returned {S(r)}"):
         return False
     if s is None:
         s = vb[0]
@@ -145,19 +204,19 @@ def check_cycle(ctx, r, s, loops, loop_of, bedges, eid, what):
     if not ctx.check(vb[0] == s, "cycle:start", f"{what}: walk starts at {vb[0]}, asked for {s}"):
         return False
     loop = loops[loop_of[s]]
-    if not ctx.check(len(vb) == len(set(vb)), "cycle:vertices", f"{what}: a vertex is visited twice: {vb} (loop of {s}: {loop})"):
+    if not ctx.check(len(vb) == len(set(vb)), "cycle:vertices", f"{what}: a vertex is visited twice: {S(vb)} (loop of {s}: {S(loop)})"):
         return False
     if not ctx.check(set(vb) == set(loop), "cycle:vertices",
-                     f"{what}: visited {vb}, the border loop through {s} is {loop} (missing {sorted(set(loop) - set(vb))}, "
-                     f"foreign {sorted(set(vb) - set(loop))})"):
+                     f"{what}: visited {S(vb)}, the border loop through {s} is {S(loop)} (missing {S(set(loop) - set(vb))}, "
+                     f"foreign {S(set(vb) - set(loop))})"):
         return False
     n = len(vb)
     pairs = [key(vb[i], vb[(i + 1) % n]) for i in range(n)]
     bad = [p for p in pairs if p not in bedges]
-    if not ctx.check(not bad, "cycle:walk", f"{what}: consecutive vertices {bad} of {vb} are not joined by a border edge"):
+    if not ctx.check(not bad, "cycle:walk", f"{what}: consecutive vertices {S(bad)} of {S(vb)} are not joined by a border edge"):
         return False
     exp = [eid[p] for p in pairs]
-    return ctx.check(eb == exp, "cycle:edges", f"{what}: edge list {eb}, ids of consecutive pairs (incl. closing edge) {exp}; vertices {vb}")
+    return ctx.check(eb == exp, "cycle:edges", f"{what}: edge list {S(eb)}, ids of consecutive pairs (incl. closing edge) {S(exp)}; vertices {S(vb)}")
 
 
 class BorderRef:
@@ -188,29 +247,29 @@ class BorderRef:
 
 def check_all(ctx, r, B, what):
     loops, loop_of, bedges = B.loops, B.loop_of, B.bedges
-    if not ctx.check(isinstance(r, list) and all(_as_int_list(c) is not None for c in r), "all:shape", f"{what}: returned {r!r}"):
+    if not ctx.check(isinstance(r, list) and all(_as_int_list(c) is not None for c in r), "all:shape", f"{what}: returned {S(r)}"):
         return
     cyc = [_as_int_list(c) for c in r]
     good = True
     for c in cyc:
-        if not ctx.check(len(c) > 0 and c[0] in loop_of, "all:cycle", f"{what}: cycle {c} does not start on the border"):
+        if not ctx.check(len(c) > 0 and c[0] in loop_of, "all:cycle", f"{what}: cycle {S(c)} does not start on the border"):
             good = False
             continue
         n = len(c)
         loop = loops[loop_of[c[0]]]
-        good &= bool(ctx.check(len(set(c)) == n and set(c) == set(loop), "all:cycle", f"{what}: cycle {c} vs border loop {loop}"))
+        good &= bool(ctx.check(len(set(c)) == n and set(c) == set(loop), "all:cycle", f"{what}: cycle {S(c)} vs border loop {S(loop)}"))
         good &= bool(ctx.check(all(key(c[i], c[(i + 1) % n]) in bedges for i in range(n)) if n > 1 else False, "all:cycle",
-                               f"{what}: cycle {c} is not a closed walk along border edges"))
+                               f"{what}: cycle {S(c)} is not a closed walk along border edges"))
     if good:
         got = sorted(loop_of[c[0]] for c in cyc)
         ctx.check(len(cyc) == len(loops), "all:count", f"{what}: {len(cyc)} cycles returned, the surface has {len(loops)} border loops")
-        ctx.check(got == list(range(len(loops))), "all:once", f"{what}: loops returned (by index, sorted): {got}; expected each of {len(loops)} once")
+        ctx.check(got == list(range(len(loops))), "all:once", f"{what}: loops returned (by index, sorted): {S(got)}; expected each of {len(loops)} once")
 
 
 def check_boundary(ctx, M, r, B, what):
     V, loop_of, bverts, bedges = B.V, B.loop_of, B.bverts, B.bedges
     if not ctx.check(isinstance(r, tuple) and len(r) == 2 and isinstance(r[0], M.mesh.PolyLine) and isinstance(r[1], dict), "boundary:shape",
-                     f"{what}: returned {type(r).__name__} {r!r}"[:300]):
+                     f"{what}: returned {type(r).__name__} {S(r)}"[:300]):
         return
     bound, mp = r
     nb = len(bound.vertices)
@@ -221,7 +280,7 @@ def check_boundary(ctx, M, r, B, what):
     try:
         mp = {int(a): int(b) for a, b in mp.items()}
     except Exception:
-        ctx.check(False, "boundary:map", f"{what}: map is not int->int: {mp!r}"[:300])
+        ctx.check(False, "boundary:map", f"{what}: map is not int->int: {S(mp)}"[:300])
         return
     if not ctx.check(len(mp) == nb, "boundary:map", f"{what}: map has {len(mp)} entries for {nb} polyline vertices"):
         return
@@ -229,16 +288,16 @@ def check_boundary(ctx, M, r, B, what):
     doc_dir = set(mp.keys()) == set(range(nb)) and set(mp.values()) <= set(bverts) and all(same(BV[k], V[v]) for k, v in mp.items())
     inv_dir = set(mp.values()) == set(range(nb)) and set(mp.keys()) <= set(bverts) and all(same(BV[k], V[v]) for v, k in mp.items())
     if not ctx.check(doc_dir or inv_dir, "boundary:map",
-                     f"{what}: map {mp} is in neither direction an index correspondence polyline vertex <-> surface border vertex with equal coordinates"):
+                     f"{what}: map {S(mp)} is in neither direction an index correspondence polyline vertex <-> surface border vertex with equal coordinates"):
         return
     b2m = dict(mp) if doc_dir else {k: v for v, k in mp.items()}
     ctx.check(len(set(b2m.values())) == nb and set(b2m.values()) == set(bverts), "boundary:map-injective",
-              f"{what}: map is not a bijection onto the border vertices: {b2m}")
-    if ctx.check(all(len(e) == 2 and 0 <= e[0] < nb and 0 <= e[1] < nb for e in bE), "boundary:edges", f"{what}: polyline edges out of range: {bE}"):
+              f"{what}: map is not a bijection onto the border vertices: {S(b2m)}")
+    if ctx.check(all(len(e) == 2 and 0 <= e[0] < nb and 0 <= e[1] < nb for e in bE), "boundary:edges", f"{what}: polyline edges out of range: {S(bE)}"):
         mapped = [key(b2m[a], b2m[b]) for a, b in bE]
         ctx.check(len(mapped) == len(set(mapped)) and set(mapped) == bedges, "boundary:edges",
-                  f"{what}: polyline edges mapped to the surface {sorted(mapped)} != border edges {sorted(bedges)} "
-                  f"(missing {sorted(bedges - set(mapped))}, extra {sorted(set(mapped) - bedges)})")
+                  f"{what}: polyline edges mapped to the surface {S(sorted(mapped))} != border edges {S(bedges)} "
+                  f"(missing {S(bedges - set(mapped))}, extra {S(set(mapped) - bedges)})")
     if bound.vertices.has_attribute("component") and bverts:
         comp = bound.vertices.get_attribute("component")
         try:
@@ -246,13 +305,13 @@ def check_boundary(ctx, M, r, B, what):
         except Exception:
             keys = None
         if ctx.check(keys is not None and all(0 <= k < nb for k in keys), "boundary:component-attr",
-                     f"{what}: 'component' attribute of the polyline is written at indices {keys} but the polyline has {nb} vertices"):
+                     f"{what}: 'component' attribute of the polyline is written at indices {S(keys)} but the polyline has {nb} vertices"):
             vals = {k: int(comp[k]) for k in range(nb)}
             byloop = {}
             for k in range(nb):
                 byloop.setdefault(loop_of[b2m[k]], set()).add(vals[k])
             ctx.check(all(len(s) == 1 for s in byloop.values()) and len(set(next(iter(s)) for s in byloop.values())) == len(byloop),
-                      "boundary:component-attr", f"{what}: 'component' attribute is not constant per border loop / distinct across loops: {byloop}")
+                      "boundary:component-attr", f"{what}: 'component' attribute is not constant per border loop / distinct across loops: {S(byloop)}")
     ctx.check(doc_dir, "boundary:map-direction",
               f"{what}: returned map {dict(list(mp.items())[:8])}... maps surface vertex ids to polyline ids; documented (and stated) is the map "
               f"from polyline vertex ids back to the surface")
@@ -261,12 +320,31 @@ def check_boundary(ctx, M, r, B, what):
 def check_non_border_start(ctx, P, m, s, what):
     try:
         r = P.extract_border_cycle(m, s)
-        ctx.check(False, "cycle:non-border-start", f"{what}: extract_border_cycle(m,{s}) with {s} not on the border returned {r!r} instead of raising")
+        ctx.check(False, "cycle:non-border-start", f"{what}: extract_border_cycle(m,{s}) with {s} not on the border returned {S(r)} instead of raising")
     except Exception as e:
         if type(e).__name__ in ("Violation", "Inconclusive", "HarnessError"):
             raise
         ctx.check(type(e) is Exception and "not on mesh border" in str(e), "cycle:non-border-start",
                   f"{what}: extract_border_cycle(m,{s}) raised {type(e).__name__}: {e}")
+
+
+def scribble(r):
+    """the caller owns what the functions return: overwrite the returned lists / dict in place (after they were validated); if one
+    of them were the mesh's own cache, the state comparison after the call and the next calls would show it"""
+    try:
+        if isinstance(r, dict):
+            r.clear()
+        elif isinstance(r, list):
+            for x in r:
+                if isinstance(x, list):
+                    x.clear()
+            r.clear()
+        elif isinstance(r, tuple):
+            for x in r:
+                if isinstance(x, list):
+                    x.clear()
+    except Exception:
+        pass
 
 
 def mesh_snapshot(m):
@@ -296,14 +374,16 @@ def border_sequence(ctx, M, m, B, ops, label):
         if op == "cycle":
             if B.bverts:
                 s = B.bverts[a % len(B.bverts)]
-                ok, r = ctx.call("cycle", P.extract_border_cycle, m, s)
+                ok, r = ctx.call("cycle", P.extract_border_cycle, m, np.int64(s) if a % 3 == 0 else s)
                 if ok:
                     check_cycle(ctx, r, s, B.loops, B.loop_of, B.bedges, B.eid, what + f" extract_border_cycle(m,{s})")
+                    scribble(r)
         elif op == "cycle_default":
             ok, r = ctx.call("cycle", P.extract_border_cycle, m)
             if ok:
                 if B.bverts:
                     check_cycle(ctx, r, None, B.loops, B.loop_of, B.bedges, B.eid, what + " extract_border_cycle(m)")
+                    scribble(r)
                 else:
                     ctx.check(isinstance(r, (list, tuple)) and all(len(x) == 0 for x in r), "cycle:closed", f"{what}: closed surface: returned {r!r}")
         elif op == "cycle_bad":
@@ -313,10 +393,25 @@ def border_sequence(ctx, M, m, B, ops, label):
             ok, r = ctx.call("all", P.extract_border_cycle_all, m)
             if ok:
                 check_all(ctx, r, B, what)
+                scribble(r)
         elif op == "boundary":
             ok, r = ctx.call("boundary", P.extract_boundary_of_surface, m)
             if ok:
                 check_boundary(ctx, M, r, B, what)
+                if isinstance(r, tuple) and len(r) == 2:
+                    scribble(r[1])
+        elif op == "other_mesh":
+            # an unrelated second mesh goes through the same functions; the first one must not notice (no module-level state)
+            V2 = [[0.0, 0.0, 7.0], [1.0, 0.0, 7.0], [0.0, 1.0, 7.0], [1.0, 1.0, 7.0], [2.0, 0.5, 7.0]]
+            F2 = [[0, 1, 2], [1, 3, 2], [1, 4, 3]][:1 + a % 3]
+            B2 = BorderRef(V2, F2)
+            m2 = surface_from(V2, F2)
+            B2.eid = {e: i for i, e in enumerate(tuple(ints(e)) for e in m2.edges)}
+            for f2, chk in ((P.extract_border_cycle_all, lambda r2: check_all(ctx, r2, B2, what + " (second mesh)")),
+                            (P.extract_boundary_of_surface, lambda r2: check_boundary(ctx, M, r2, B2, what + " (second mesh)"))):
+                ok, r2 = ctx.call("other-mesh", f2, m2)
+                if ok:
+                    chk(r2)
         elif op == "is_border":
             v = a % len(V)
             ok, r = ctx.call("state", m.is_vertex_on_border, v)
@@ -410,6 +505,40 @@ def fn_border(case, ctx):
         border_sequence(ctx, M, surface_from(V, F), B, ops, "sequence on one mesh:")
 
 
+def fn_border_huge(case, ctx):
+    import mouette as M
+    V, F = case["V"], case["F"]
+    B = BorderRef(V, F)
+    for t in case.get("tags", []):
+        ctx.label(t)
+    longest = max(len(l) for l in B.loops)
+    ctx.label("longest-loop" + (">65536" if longest > 65536 else ">32768" if longest > 32768 else ">16384" if longest > 16384 else
+                                ">10001" if longest > 10001 else ">8192" if longest > 8192 else ">4096" if longest > 4096 else
+                                ">2048" if longest > 2048 else ">1024"), f"loops={len(B.loops)}")
+    ctx.nontrivial(longest > 1000)
+    M.config.sort_neighborhoods = True
+    P = M.processing
+    m = surface_from(V, F)
+    medges = [tuple(ints(e)) for e in m.edges]
+    if not ctx.check(set(medges) == B.ref.uedges and len(set(medges)) == len(medges), "edges", "edge container differs from the sides of the faces"):
+        return
+    B.eid = {e: i for i, e in enumerate(medges)}
+    for a in case["starts"]:
+        s = B.bverts[a % len(B.bverts)]
+        ok, r = ctx.call("cycle", P.extract_border_cycle, m, s)
+        if ok:
+            check_cycle(ctx, r, s, B.loops, B.loop_of, B.bedges, B.eid, f"extract_border_cycle(m,{s}) [longest loop {longest}]")
+    m = surface_from(V, F)
+    ok, r = ctx.call("all", P.extract_border_cycle_all, m)
+    if ok:
+        check_all(ctx, r, B, f"extract_border_cycle_all(fresh mesh) [longest loop {longest}]")
+    m = surface_from(V, F)
+    ok, r = ctx.call("boundary", P.extract_boundary_of_surface, m)
+    if ok:
+        check_boundary(ctx, M, r, B, f"extract_boundary_of_surface(fresh mesh) [longest loop {longest}]")
+    border_sequence(ctx, M, surface_from(V, F), B, [tuple(o) for o in case["ops"]], "sequence on one mesh:")
+
+
 # ============================================================================================ features: generators
 
 def _unit(x):
@@ -462,8 +591,10 @@ def pyramid(n, gamma_deg):
 
 
 @st.composite
-def roof(draw, big=False):
+def roof(draw, big=False, kl=None):
     K = draw(st.integers(1, 8 if big else 4)); L = draw(st.integers(1, 8 if big else 4))
+    if kl:
+        K = draw(st.integers(*kl)); L = draw(st.integers(*kl))
     rnd = random.Random(draw(st.integers(0, 10 ** 6)))
     phi = 0.0
     P = [(0.0, 0.0)]
@@ -566,9 +697,11 @@ def polycube(draw, big=False):
 
 
 @st.composite
-def feature_case(draw, big=False):
+def feature_case(draw, big=False, huge=False):
     max_att = 60 if big else 20
     fam = draw(st.sampled_from(["tri", "tri", "pyr", "pyr", "roof", "roof", "roof", "generic", "polycube", "polycube"]))
+    if huge:
+        fam = "roof"            # size regime: 600 .. 2000 cells, more than 1000 interior vertices
     tags = []
     vform = "float"
     if fam == "polycube":
@@ -601,7 +734,9 @@ def feature_case(draw, big=False):
             V, F = pyramid(n, gam)
             tags = ["seed=pyr", f"pyr_n={n}"]
         else:
-            V, F, tags = draw(roof(big))
+            V, F, tags = draw(roof(big, kl=(25, 45) if huge else None))
+            if huge:
+                tags.append("huge-roof")
         V = [list(v) for v in V]; F = [list(f) for f in F]
         natt = draw(st.integers(0, max_att if fam == "tri" else max_att // 2))
         ref = SurfRef(len(V), F)
@@ -640,7 +775,7 @@ def feature_case(draw, big=False):
         return {"only_border": draw(st.sampled_from([False] * 5 + [True])), "flag_corners": draw(st.sampled_from([True, True, True, False])),
                 "corner_order": draw(st.sampled_from([1, 2, 3, 4, 4, 4, 5, 6, 8])), "graph": draw(st.booleans()),
                 "via": draw(st.sampled_from(["run", "run", "detect", "call"])), "verbose": draw(st.sampled_from([False] * 4 + [True]))}
-    second = draw(st.sampled_from([None, None, None, "same-detector", "moved-same-detector", "moved-new-detector"]))
+    second = draw(st.sampled_from([None, None, None, "same-detector", "moved-same-detector", "moved-new-detector", "other-mesh"]))
     return {"V": V, "F": F, "E": E, "tags": tags, "opts": opts(), "pre_normals": draw(st.sampled_from([False] * 5 + [True])),
             "rerun": opts() if draw(st.sampled_from([False] * 4 + [True])) else None, "vform": vform, "second": second,
             "stretch": [draw(st.sampled_from([0.5, 0.8, 1.0, 1.25, 2.0])) for _ in range(3)],
@@ -901,12 +1036,19 @@ def fn_features(case, ctx):
         return
     check_detector(ctx, M, m, det, o, ref, medges, dots, hard, asum, V, True, "run")
     last = (det, o)
+
+    def det_snapshot(d):
+        return (set(ints(d.feature_edges)), set(ints(d.feature_vertices)), {int(k): ints(v) for k, v in d.local_feat_edges.items()},
+                [int(d.feature_degrees[v]) for v in range(len(V))])
     if case["rerun"]:
         o2 = case["rerun"]
         det2 = make_detector(M, o2)
+        snap1 = det_snapshot(det)
         if run_quiet(ctx, "rerun", det2, o2, m):
             check_detector(ctx, M, m, det2, o2, ref, medges, dots, hard, asum, V, False, f"second run (after a run with {o})")
             last = (det2, o2)
+            ctx.check(det_snapshot(det) == snap1, "feat:first-detector-changed",
+                      f"the containers of the first detector (opts {o}) changed when a second detector (opts {o2}) ran")
     ctx.check(mesh_snapshot(m) == snap, "state:containers", "vertices / faces / edges of the mesh changed during the detection")
     second = case.get("second")
     if second == "same-detector":
@@ -914,6 +1056,22 @@ def fn_features(case, ctx):
         ctx.label("second=same-detector")
         if run_quiet(ctx, "rerun", det, o, m):
             check_detector(ctx, M, m, det, o, ref, medges, dots, hard, asum, V, False, "same detector object run a second time")
+    elif second == "other-mesh":
+        # a second, independent mesh (stretched copy) and detector: right on its own, and the first detector / mesh do not notice
+        ctx.label("second=other-mesh")
+        st3 = np.array(case.get("stretch", [1.0, 1.0, 1.0]), dtype=float)
+        V2 = (np.array(V, dtype=float) * st3).tolist()
+        m2 = feature_mesh(M, V2, F, E, "float")
+        _, _, dots2, asum2 = own_geometry(V2, F, ref)
+        snap1 = det_snapshot(last[0])
+        d3 = make_detector(M, o)
+        if run_quiet(ctx, "run-other-mesh", d3, o, m2):
+            check_detector(ctx, M, m2, d3, o, ref, [tuple(ints(e)) for e in m2.edges], dots2, hard, asum2, V2, True, "run on a second, independent mesh")
+            ctx.check(det_snapshot(last[0]) == snap1, "feat:first-detector-changed", "the containers of the first detector changed when another detector ran on another mesh")
+            fa = m.edges.get_attribute("feature")
+            bad = [e for e in range(len(medges)) if bool(fa[e]) != (e in snap1[0])]
+            ctx.check(not bad, "feat:edge-attr", f"'feature' attribute of the first mesh changed when another mesh was processed: edges {bad[:8]}")
+            ctx.check(mesh_snapshot(m) == snap, "state:containers", "the first mesh changed when another mesh was processed")
     elif second in ("moved-same-detector", "moved-new-detector") and not case["pre_normals"]:
         # the vertices of the same mesh object are moved (anisotropic stretch: faces stay planar, angles change); a new run must see
         # the new geometry (nothing geometric may be remembered on the mesh or in the detector)
@@ -963,18 +1121,21 @@ SUBCHECKS = [
     SubCheck("features", feature_case(), fn_features, quick=5000, thorough=4000),
     SubCheck("border_large", border_case(big=True), fn_border, quick=160, thorough=400, watchdog=(60, 240)),
     SubCheck("features_large", feature_case(big=True), fn_features, quick=240, thorough=600, watchdog=(60, 240)),
+    # size regime (well above any plausible internal threshold): border loops of 1e3 .. 6.6e4 vertices, detector on > 1000 interior vertices
+    SubCheck("border_huge", border_huge_case(), fn_border_huge, quick=32, thorough=12, watchdog=(120, 300)),
+    SubCheck("features_huge", feature_case(big=True, huge=True), fn_features, quick=16, thorough=6, watchdog=(120, 300)),
 ]
 
 # ---- proposed known-finding matchers (only active when listed in known_findings.json)
 def kf_boundary_map_direction(case, violation):
     """extract_boundary_of_surface returns {surface id: polyline id}; documented is {polyline id: surface id}.
     The signature only fires when the returned dict IS a consistent correspondence in the inverse direction."""
-    return violation.sub_check in ("border", "border_large") and violation.signature == "boundary:map-direction"
+    return violation.sub_check in ("border", "border_large", "border_huge") and violation.signature == "boundary:map-direction"
 
 
 def kf_boundary_component_attr(case, violation):
     """the 'component' vertex attribute of the boundary polyline is written at surface vertex ids"""
-    return violation.sub_check in ("border", "border_large") and violation.signature == "boundary:component-attr"
+    return violation.sub_check in ("border", "border_large", "border_huge") and violation.signature == "boundary:component-attr"
 
 
 MATCHERS = {"kf_boundary_map_direction": kf_boundary_map_direction, "kf_boundary_component_attr": kf_boundary_component_attr}
